@@ -3,8 +3,11 @@
 From Coq Require Import List NArith.
 From PatVerif Require Import Base.Bytes Model.RateLimited Gen.Src.
 Import ListNotations.
-Example tie_label_key : map n2b s_t3_label_key = label_key. Proof. reflexivity. Qed.
-Example tie_label_nonce : map n2b s_t3_label_nonce = label_nonce. Proof. reflexivity. Qed.
-Example tie_info_request : s_t3_info_request_client = s_t3_info_request_issuer /\ s_t3_info_request_client = [84; 111; 107; 101; 110; 82; 101; 113; 117; 101; 115; 116]%N. Proof. split; reflexivity. Qed.
-Example tie_info_response : s_t3_info_response_client = s_t3_info_response_issuer /\ s_t3_info_response_client = [84; 111; 107; 101; 110; 82; 101; 115; 112; 111; 110; 115; 101]%N. Proof. split; reflexivity. Qed.
-Example tie_request_fields : s_t3_request_fields = [49; 32; 96]%N. Proof. reflexivity. Qed.
+Ltac t := vm_compute; first [reflexivity | exact I | repeat split; reflexivity].
+Example tie_label_key : tie s_t3_label_key (fun v => map n2b v = label_key). Proof. t. Qed.
+Example tie_label_nonce : tie s_t3_label_nonce (fun v => map n2b v = label_nonce). Proof. t. Qed.
+Example tie_info_request_client : tie s_t3_info_request_client (fun v => v = [84; 111; 107; 101; 110; 82; 101; 113; 117; 101; 115; 116]%N). Proof. t. Qed.
+Example tie_info_request_issuer : tie s_t3_info_request_issuer (fun v => v = [84; 111; 107; 101; 110; 82; 101; 113; 117; 101; 115; 116]%N). Proof. t. Qed.
+Example tie_info_response_client : tie s_t3_info_response_client (fun v => v = [84; 111; 107; 101; 110; 82; 101; 115; 112; 111; 110; 115; 101]%N). Proof. t. Qed.
+Example tie_info_response_issuer : tie s_t3_info_response_issuer (fun v => v = [84; 111; 107; 101; 110; 82; 101; 115; 112; 111; 110; 115; 101]%N). Proof. t. Qed.
+Example tie_request_fields : tie s_t3_request_fields (fun v => v = [49; 32; 96]%N). Proof. t. Qed.
